@@ -78,6 +78,15 @@ def main():
                 rt = types.get(cal.expr)
                 calls.append({"kind": "member", "module": modname, "file": rel, "line": node.line, "col": node.column, "function": fn, "name": cal.name,
                               "receiver_type": str(rt) if rt is not None else None, "arg_names": [a for a in node.arg_names]})
+            if isinstance(cal, MemberExpr) and cal.name in WATCH_MEMBERS:
+                # the receiver as written, so that a rule can tell a parameter of the enclosing function from other values
+                from mypy.nodes import NameExpr as _NE
+
+                calls[-1]["receiver_name"] = cal.expr.name if isinstance(cal.expr, _NE) else None
+            if isinstance(cal, NameExpr) and (getattr(cal, "fullname", "") or "").startswith("chuk_mcp."):
+                # calls of the package's own module-level functions: argument types, for one step of call-site typing
+                calls.append({"kind": "pkgcall", "module": modname, "file": rel, "line": node.line, "function": fn, "name": cal.name, "fullname": cal.fullname,
+                              "arg_types": [str(types.get(a)) if types.get(a) is not None else None for a in node.args], "arg_names": list(node.arg_names)})
             name = None
             if isinstance(cal, NameExpr):
                 name = cal.name
